@@ -213,6 +213,10 @@ impl Model for AckModel {
         t.peer_request(1, "/a", false);
         t.drive(50);
         let pp = if let Conn::Server(c) = &mut t.conn { c.ping_pong() } else { None };
+        // whoever takes the PingPong handle holds the connection (`&mut`) and goes on polling it: only then does the
+        // connection know where to be woken for user pings (the handle is normally taken before the first poll)
+        t.conn_flag.wake_by_ref_pub();
+        t.drive(50);
         let mut acct = FlowAcct::new(Side::Server);
         acct.update(&t.mon);
         World { pp, user_ping_outstanding: false, stray_settings_ack_sent: false, local_windows: vec![65535], responded: false, pushes: 0, pushed: vec![], life: Lifecycle::new(Side::Server), stream_open: true, acct }
